@@ -556,7 +556,15 @@ class IrGenerator:
 
             ctx = ir.StatemachineContext.enter(inp._name)
 
-            statemachine_end = self.apply(inp._body, open_blocks=[ctx.first_block()])
+            try:
+                statemachine_end = self.apply(
+                    inp._body, open_blocks=[ctx.first_block()]
+                )
+            except BaseException:
+                # the design is rejected, release the singleton so
+                # later compilations can define state machines
+                ir.StatemachineContext._singleton = None
+                raise
 
             parent_block.append(ir.StatemachineContext.finish(statemachine_end))
 
